@@ -473,12 +473,16 @@ theorem gen_run_until_while_succ (F : Nat) (self : GenFn.SimRun) (T : Int) (ω :
     obtain ⟨e, hp'⟩ := p
     rw [hpl] at hc
     simp only at hc
+    show _ = (if e.time ≤ T then _ else _)
     by_cases hT : e.time ≤ T
-    · simp only [hc, hT, if_true, decide_true]
-      generalize ex (e.time, hp', w) e = res
+    · have hT' : ¬ (T < e.time) := by omega
+      rw [if_pos hT]
+      generalize hres : ex (e.time, hp', w) e = res
       obtain ⟨v, a, b, c⟩ := res
-      cases v <;> simp
-    · simp [hc, hT, C14_gen_add_event_eq_model]
+      cases v <;> simp [hc, hT, hT', hres]
+    · have hT' : T < e.time := by omega
+      rw [if_neg hT]
+      simp [hc, hT, hT', C14_gen_add_event_eq_model]
 
 /-- what the callback parameter has to be for the generated loop to be the model's loop: `A w s` says that the world `w`
     stands for the part of the model state `s` the simulator itself does not write (it does not look at the clock, the
@@ -628,5 +632,103 @@ theorem C15_chunking_generated {ω : Type} {A : ω → Sim → Prop}
   rw [hF] at e3
   obtain ⟨a3, b3, c3, d3⟩ := e3
   exact ⟨F, a3.trans a2.symm, b3.trans b2.symm, c3.perm.trans c2.perm.symm, d3, d2⟩
+
+/-! #### C14's execution clause over the generated loop, with the callback that only records what is executed -/
+
+/-- the callable that does nothing but record the event it is executed for (world = the record) -/
+def exLog (st : Int × List Ev × List Ev) (e : Ev) : Except Py.Err Unit × (Int × List Ev × List Ev) :=
+  (.ok (), (st.1, st.2.1, st.2.2 ++ [e]))
+
+theorem popLive_none_filter {l : List Ev} (h : popLive l = none) : l.filter Ev.live = [] := by
+  induction l with
+  | nil => rfl
+  | cons x xs ih =>
+    unfold popLive at h
+    by_cases hc : x.cancelled = true
+    · simp only [hc, if_true] at h
+      simp [Ev.live, hc, ih h]
+    · simp [hc] at h
+
+theorem popLive_some_filter {l : List Ev} {e : Ev} {rest : List Ev} (h : popLive l = some (e, rest)) :
+    l.filter Ev.live = e :: rest.filter Ev.live ∧ rest.length < l.length := by
+  induction l with
+  | nil => simp [popLive] at h
+  | cons x xs ih =>
+    unfold popLive at h
+    by_cases hc : x.cancelled = true
+    · simp only [hc, if_true] at h
+      obtain ⟨a, b⟩ := ih h
+      exact ⟨by simp [Ev.live, hc, a], by simp; omega⟩
+    · simp [hc] at h
+      obtain ⟨rfl, rfl⟩ := h
+      exact ⟨by simp [Ev.live, hc], by simp⟩
+
+theorem gen_run_until_log (self : GenFn.SimRun) (T : Int) (F : Nat) :
+    ∀ (hp s : List Ev) (t : Int) (log : List Ev), Refines hp s → s.length < F →
+      (GenFn.run_until.while1 F self T (List Ev) exLog log t hp).1 = .ok () ∧
+      (GenFn.run_until.while1 F self T (List Ev) exLog log t hp).2.1 = T ∧
+      (GenFn.run_until.while1 F self T (List Ev) exLog log t hp).2.2.2 =
+        log ++ (s.filter Ev.live).takeWhile (fun e => decide (e.time ≤ T)) := by
+  induction F with
+  | zero => intro _ s _ _ _ h; omega
+  | succ F ih =>
+    intro hp s t log r hF
+    rw [gen_run_until_while_succ]
+    have hr := refines_popLive r
+    rw [← r.perm.length_eq] at hr
+    cases hpl : popLive s with
+    | none =>
+      simp only [hpl] at hr
+      rw [hr]
+      simp [popLive_none_filter hpl]
+    | some p =>
+      obtain ⟨e, rest⟩ := p
+      simp only [hpl] at hr
+      obtain ⟨hp', hq, r'⟩ := hr
+      obtain ⟨hf, hl⟩ := popLive_some_filter hpl
+      rw [hq, hf]
+      by_cases hT : e.time ≤ T
+      · obtain ⟨a, b, c⟩ := ih hp' rest e.time (log ++ [e]) r' (by omega)
+        simp [hT, exLog, List.takeWhile_cons, a, b, c]
+      · simp [hT, List.takeWhile_cons]
+
+/-- **C14's execution clause about the code-derived text**: on an event list holding the events `s` (sorted by the code's
+    `__lt__`: (time, priority, id)), with more fuel than events, the generated `run_until(T)` hands to `event.execute()` exactly
+    the live events with time ≤ T — each once, in (time, priority, id) order (the record is a strictly increasing list) — never a
+    cancelled or a later one, returns normally and leaves the clock at `T`. -/
+theorem C14_run_until_generated (hp s : List Ev) (r : Refines hp s) (t T m : Int) (F : Nat) (hF : s.length < F) :
+    (GenFn.run_until ⟨t, some m, ⟨hp⟩⟩ T (List Ev) exLog [] F).1 = .ok () ∧
+    (GenFn.run_until ⟨t, some m, ⟨hp⟩⟩ T (List Ev) exLog [] F).2.1 = T ∧
+    (GenFn.run_until ⟨t, some m, ⟨hp⟩⟩ T (List Ev) exLog [] F).2.2.2 =
+      (s.filter fun e => !e.cancelled && decide (e.time ≤ T)) ∧
+    (GenFn.run_until ⟨t, some m, ⟨hp⟩⟩ T (List Ev) exLog [] F).2.2.2.Pairwise (fun a b => GenFn.lt a b = true) := by
+  have e : GenFn.run_until ⟨t, some m, ⟨hp⟩⟩ T (List Ev) exLog [] F =
+      GenFn.run_until.while1 F ⟨t, some m, ⟨hp⟩⟩ T (List Ev) exLog [] t hp := by
+    simp [GenFn.run_until]
+  obtain ⟨a, b, c⟩ := gen_run_until_log ⟨t, some m, ⟨hp⟩⟩ T F hp s t [] r hF
+  rw [e, gen_lt_eq]
+  have hsub : ((s.filter Ev.live).takeWhile (fun e => decide (e.time ≤ T))).Sublist s :=
+    (List.takeWhile_sublist _).trans List.filter_sublist
+  refine ⟨a, b, ?_, by rw [c]; exact r.sorted.sublist (by simpa using hsub)⟩
+  rw [c, List.nil_append]
+  -- in a list sorted by time first, the live events up to T are a prefix of the live events
+  have hs : (s.filter Ev.live).Pairwise (fun a b => a.lt b = true) := r.sorted.sublist List.filter_sublist
+  have : ∀ l : List Ev, l.Pairwise (fun a b => a.lt b = true) →
+      l.takeWhile (fun e => decide (e.time ≤ T)) = l.filter (fun e => decide (e.time ≤ T)) := by
+    intro l hl
+    induction l with
+    | nil => rfl
+    | cons x xs ih =>
+      obtain ⟨hx, hxs⟩ := List.pairwise_cons.mp hl
+      by_cases hT : x.time ≤ T
+      · simp [List.takeWhile_cons, hT, ih hxs]
+      · have : ∀ y ∈ xs, ¬ y.time ≤ T := fun y hy => by
+          have := Ev.time_le_of_lt (hx y hy); omega
+        simp [List.takeWhile_cons, hT]
+        exact fun y hy => by have := this y hy; omega
+  rw [this _ hs, List.filter_filter]
+  congr 1
+  funext x
+  simp [Ev.live, Bool.and_comm]
 
 end Mesa.Devs
